@@ -29,6 +29,12 @@ HASH_PREFIX = {'md5': 'm', 'sha1': 's', 'sha256': 't', 'sha512': 'u', 'blake2b':
 MHASH_PREFIX = {'MD5': 'm', 'SHA1': 's', 'SHA256': 't', 'SHA512': 'u', 'BLAKE2B': 'b'}
 
 
+class SeamBypassed(BaseException):
+    """gemato wrote a Manifest without going through ManifestFile.dump(file): the model
+    cannot know what was written.  Reported as a harness error ("cannot attach"), never as
+    a violation.  (BaseException: must not be swallowed by the code under test.)"""
+
+
 class FuelExhausted(Exception):
     """The model walk produced more directories than any terminating walk could."""
 
@@ -120,6 +126,7 @@ class _Handle:
         self.fs, self.path, self.node, self.mode = fs, path, node, mode
         self.fd = None
         self.lines = []
+        self.dumped = False
         self.buffer = self
 
     # context manager protocol of the real return values (file object / FileStack)
@@ -129,6 +136,8 @@ class _Handle:
     def __exit__(self, *a):
         if self.fd is not None:
             self.fs._fds.pop(self.fd, None)
+        if self.mode == 'w' and not self.dumped and a[0] is None:
+            raise SeamBypassed(f'{self.path} was written without ManifestFile.dump()')
         return False
 
     def fileno(self):
@@ -473,6 +482,17 @@ class _PathProxy:
         n = _PathProxy._probe(path)
         return n is not None and n.kind == 'dir'
 
+    _PURE = ('commonprefix', 'commonpath', 'split', 'isabs', 'normcase', 'splitdrive',
+             'curdir', 'pardir', 'extsep', 'altsep', 'pathsep', 'defpath', 'devnull')
+
+    def __getattr__(self, name):
+        # pure string functions are the real ones; anything else that would look at the
+        # real filesystem is a seam the model does not cover
+        if name in self._PURE:
+            f = getattr(posixpath, name)
+            return _untraced(f) if callable(f) else f
+        raise SeamBypassed(f'os.path.{name} is not modelled')
+
     @staticmethod
     def _probe(path, follow=True):
         """os.path.exists & co: a stat() whose every OSError means False"""
@@ -540,6 +560,14 @@ class _OsProxy:
     @staticmethod
     def lstat(path):
         return cur().os_lstat(path)
+
+    def __getattr__(self, name):
+        import os as _o
+        if name in ('sep', 'curdir', 'pardir', 'linesep', 'name', 'fspath', 'fsencode',
+                    'fsdecode', 'strerror', 'error', 'getpid', 'environ', 'getcwd',
+                    'cpu_count', 'PathLike') or name.startswith(('O_', 'S_', 'F_', 'EX_')):
+            return getattr(_o, name)
+        raise SeamBypassed(f'os.{name} is not modelled')
 
     @staticmethod
     def listdir(path):
@@ -631,6 +659,7 @@ def _m_dump(mf, f, sign_openpgp=None, openpgp_keyid=None, openpgp_env=None, sort
     if not isinstance(f, _Handle):
         return _REAL_DUMP(mf, f, sign_openpgp, openpgp_keyid, openpgp_env, sort)
     f.fs.dump_args.append((f.path, sign_openpgp, openpgp_keyid))
+    f.dumped = True
     if sign_openpgp is None:
         sign_openpgp = mf.openpgp_signed
     if RENDER[0] or f.fs.render:
